@@ -1437,13 +1437,75 @@ THEOREMS = [
     'C12.iso_stress_is_hooke', 'C12.iso_symmetric', 'C12.iso_falls_as_inv_r', 'C12.iso_burgers_jump',
     'C12.iso_jump_general', 'C12.iso_K_symm', 'C12.iso_K_posdef',
 ]
-PARTIAL = {}
-RULE = ''
-ASSUMPTIONS = []
-TRUSTED = []
+PARTIAL = {
+    'fields as analytic derivatives (Stroh)': 'strain_is_symgrad / stress_div_free / falls_as_inv_r are statements about the '
+        'coefficients of ln(eta_a) and 1/eta_a in the coded sums together with eta_dir_deriv (eta_a is affine with gradient '
+        'm + p_a n): the formal derivative. That d/dx ln = 1/x for the complex logarithm off the cut is not restated in Lean; '
+        'the finite-difference oracle checks it on the real code.',
+    'displacement jump (Stroh)': 'burgers_closure assumes the completeness relation sum_a k_a A_a (x) L_a = 1 exactly (it is the '
+        'solver\'s own first self-check, which holds to round-off; the driver recomputes the residual for every solved '
+        'problem) and that ln(eta_a) jumps by +-2 pi i with the coded alternating sign, i.e. Im p_a > 0 for the first and '
+        '< 0 for the second member of each pair.',
+    'K_tensor real': 'K_real_partial assumes that numpy.linalg.eig lists the six modes as adjacent complex-conjugate pairs '
+        '(ConjPairs); LAPACK does so for a real matrix, the driver verifies it exactly on every solved problem.',
+    'K_tensor positive-definite (Stroh)': 'not proved: positive-definiteness of the Barnett-Lothe tensor needs the strong '
+        'ellipticity of C and the integral formalism; proved only for the isotropic closed form (iso_K_posdef). Checked on '
+        'the real code with exact Sylvester minors.',
+    'isotropic limit': 'that the Stroh solution tends to the isotropic closed form as the anisotropy vanishes is a statement '
+        'about the eigen-solver near a triple degenerate eigenvalue: explored on the real code only (difference shrinks '
+        'linearly with the anisotropy).',
+    'isotropic fields as derivatives': 'iso_stress_is_hooke, iso_symmetric, iso_falls_as_inv_r, iso_burgers_jump are exact; that '
+        'the generated strain is the symmetric gradient of the generated displacement and that the generated stress is '
+        'divergence-free are statements about derivatives of arctan/log/rational functions (see docs/C12.md for what is '
+        'proved); the finite-difference oracle checks them on the real code.',
+    'covariance': 'eigen_covariant / fields_covariant / K_covariant show that the rotated eigen-pairs solve the rotated problem '
+        'and give the rotated fields; that numpy.linalg.eig *returns* those pairs (it may return any scaling and, for the '
+        'three pairs, any order) is covered only for the scaling (scale_invariant); reordering of the pairs is explored on '
+        'the real code (covariance oracle).',
+}
+RULE = ('correspondence: positive-definite stiffness of the 7 crystal classes (isotropic base + class-shaped perturbation, scale '
+        '1 / 160.25 / 2^-7), Burgers vectors edge / screw / mixed / with climb component / crystal vectors, orientation by '
+        'rational rotation, un-normalised integer axes, or Miller line+plane in 6 boxes (cubic, tetragonal, orthorhombic, '
+        'hexagonal, triclinic), m and n as strings or as rows of exact rational rotations; field points generic, dyadic, on the '
+        'frame axes, within 1e-9 r of the cut, on the cut (axis-aligned frames), distances 0.01-100, with offset along the '
+        'line; malformed orientation stream: non-unit m / n by factors from 1 +- 0.5e-8 (accepted) to 2, non-perpendicular by '
+        'angles 0.5e-8 .. 0.1, cart_axes with rotated / negative / aligned axes, skewed and left-handed axes. Model values are '
+        'compared within a round-off bound derived from the magnitudes the implementation sums (1e-11 x sum |terms|); entries '
+        'within tol x max of the clean-up threshold are compared with atol 2.5 tol max. distinct = distinct canonical input; '
+        'non-trivial = solver accepted (exactly degenerate orientations such as a line along the six-fold axis are counted '
+        'but trivial) and, for theta, the point is not within 1e-12 r of the branch in a rotated frame. '
+        'search: same generators, clauses evaluated on the real code only')
+ASSUMPTIONS = [
+    'numpy.linalg.eig returns (p_a, (A_a, L_a)) with N v = p v up to the residual recomputed by the driver on every solved '
+    'problem (bound 1e-13 x cond(V) x row scale); exact eigenvalue degeneracy is outside the property',
+    'numpy.linalg.inv(nn): the driver uses the exact adjugate inverse, the theorems take nn . nnInv = 1 as hypothesis',
+    'np.log of a complex number is a branch of the logarithm with the cut on the negative real axis (values are passed to the '
+    'model, never computed in Lean); np.arctan, np.pi, k**.5 and vector norms likewise (sqrt residuals are recomputed)',
+    'numpy einsum / dot compute the mathematical contraction up to round-off bounded by 1e-11 x the sum of |terms|',
+    'Box.vector_crystal_to_cartesian / plane_crystal_to_cartesian (property C16) give the line direction and plane normal; '
+    'the search oracle recomputes the plane normal exactly from the reciprocal lattice',
+    'ElasticConstants(Cij=...), .Cij, .Cijkl, bulk(), shear(), is_normal, normalized_as (property C11) are used as given; '
+    'Cijkl and transform are modelled (cijkl, toVoigt, rotC) and compared',
+]
+TRUSTED = ['numpy.linalg.eig / inv / norm, np.log, np.arctan (values handed to the model, residuals recomputed exactly)',
+           'the AST translator for IsotropicVolterraDislocation.py (this module + harness/translate.py)',
+           'finite-difference oracles (4th-order Richardson, h = r/1000) in the search']
 
 MANIFEST = {
-    'text': 'placeholder',
-    'note': 'placeholder',
-    'technique': 'Lean 4 theorems over a hand-written model + translator + differential correspondence',
+    'text': 'Volterra dislocation fields. Lean model of the Stroh sextic formalism over any field (run at Q(i)) with the '
+            'eigen-solver, 3x3 inverse, log, arctan, pi as parameters; the isotropic closed-form displacement / strain / '
+            'stress / K are regenerated from IsotropicVolterraDislocation.py on every run. Proved for all inputs: N v = p v '
+            'implies L = -(nm + p nn) A and the sextic equation; the coded strain coefficients are the symmetrised formal '
+            'gradient of the displacement coefficients; stress = C : strain; div stress = 0 mode by mode from the sextic '
+            'equation; strain and stress homogeneous of degree -1; displacement jump = b from the completeness relation; '
+            'K symmetric, real given conjugate-pair ordering; covariance of the eigen residuals, fields and K under any R '
+            'with R^T R = 1; independence of the eigenvector normalisation; isotropic: stress = Hooke(strain), symmetry, 1/r, '
+            'jump = in-plane b, K symmetric positive-definite. Partial: analytic derivative statements, positive-definite '
+            'Stroh K, isotropic limit (explored on the real code).',
+    'note': 'Trusted: Lean kernel + propext/Classical.choice/Quot.sound; numpy.linalg.eig/inv, np.log, np.arctan (their values '
+            'are inputs of the model and the residuals of what the theorems assume about them are recomputed exactly by the '
+            'driver for every solved problem); the AST translator; float round-off bounded by 1e-11 x sum |terms| in the '
+            'correspondence. The search evaluates every clause on the real code (finite differences, exact C:strain, exact '
+            'Sylvester minors, Burgers circuit, rational rotations, malformed axes).',
+    'technique': 'Lean 4 theorems over a hand-written model + translator-generated closed form + differential correspondence',
 }
